@@ -13,7 +13,8 @@ CHECKS = {
             "of the evolutionary search over a seeded family of specs rendered from grammar IR are recorded (every operator "
             "result, population member, emitted solution) and every recorded tree is judged by TLC (Trace_Tree.tla); Search.tla "
             "models the operators (crossover, mutation, repair of computed counts) as edits on trees with origin tags, TLC checks "
-            "that emitted trees are derivations and its operator histories are replayed through the real operators",
+            "that emitted trees are derivations and its operator histories are replayed through the real operators; the family includes "
+            "generator-defined symbols (generators returning text, numbers and nested-tuple trees)",
             "bounded: 60 (quick) / 1200 (thorough) generated specs x settings; computed repetition counts are demanded of "
             "emitted solutions only (intermediate trees are judged against the grammar as the reader declares it, {1,}); "
             "trusted: TLC, the IR renderer",
@@ -23,7 +24,8 @@ CHECKS = {
             "extra constraints come from the constraint IR generator (incl. atoms that raise) and on specs with computed "
             "repetitions; every emitted tree is re-judged from scratch by TLC: Constraint.Sat for each constraint "
             "(Trace_Constraint, event E) and FanIR.Valid with the computed counts (Trace_Tree)",
-            "bounded: 60+20 (quick) / 900+300 (thorough) searches; only constraints expressible in the IR; no soft constraints; "
+            "bounded: 60+30+10 (quick) / 900+400+120 (thorough) searches (generated constraints / computed repetitions incl. counts that "
+            "may be 0 / a count field tied to a second field by an equality); only constraints expressible in the IR; no soft constraints; "
             "trusted: TLC, the IR renderers",
             "TLA+ constraint semantics + derivation definition evaluated by TLC on solutions recorded from real searches"),
     "C03": ("model_checking",
@@ -54,7 +56,9 @@ CHECKS = {
             "grammar up to a length bound - an oracle independent of Fandango; words and near-misses (single-unit edits, decided "
             "outside the language by the enumeration) are parsed by the real parser; every yielded tree with its input is judged "
             "by TLC (Trace_Tree: FanIR.Valid, start symbol, yield = input via TreeValueRef, no helper symbols); inputs outside "
-            "the language must yield nothing",
+            "the language must yield nothing; API level: every tree Fandango.parse yields for specs with generated where-clauses "
+            "(over TLC-enumerated words) is judged by Constraint.Sat, and for specs with computed repetitions - exact and "
+            "two-sided {lo,int(<n>)} - by FanIR.Valid with the counts enforced",
             "bounded: 40 (quick) / 600 (thorough) grammars (text, bytes, 8-bit fields), words <= 5 / 6 units; grammars with "
             "empty-deriving bodies under open repetitions excluded (C06 finding); trusted: TLC",
             "TLC-enumerated languages (derivation machine) replayed into the real parser + TLC trace validation of yielded trees"),
@@ -123,7 +127,9 @@ CHECKS = {
             "Feeding.tla (TLC) enumerates every composition of an input of n <= 7 units into fragments; the real IterativeParser is "
             "driven along every schedule for every in-class word of the Lang.tla-enumerated corpus (text incl. non-ASCII, bytes, "
             "16-bit fields): complete parses after the last fragment must equal those of the whole-input schedule and "
-            "can_continue() must hold on every proper prefix of a word of the language",
+            "can_continue() must hold on every proper prefix of a word of the language; shape grammars (every way two neighbouring "
+            "terminals of one rule meet a cut) and rich-regex templates (optional groups, alternation; written-out words, the "
+            "whole-input feed as oracle) go through all compositions as well",
             "bounded: words <= 6 / 7 units, all 2^(n-1) schedules; words outside the maximal-munch class only as pinned witnesses "
             "(finding F18); chart-level conformance (Earley.tla) is not part of this check",
             "TLC-enumerated feeding schedules and TLC-enumerated languages replayed into the real incremental parser"),
@@ -147,13 +153,15 @@ CHECKS = {
             "controls, non-ASCII inside and outside the basic plane, spec syntax) as text / bytes / regex, the same text in two kinds; constraints limited to atoms and counts (quantifier and and/or printing are findings F33/F34)",
             "TLC-enumerated program space + print/re-read translation validation judged by TLC"),
     "C16": ("model_checking",
-            "Generators.tla (argument replacement re-generates the field, generated text is never edited; the 'only the last "
-            "argument' slip is shown to violate FieldIsGenerated) model-checked by TLC; every TLC-enumerated history of argument "
+            "Generators.tla (argument replacement re-generates the field, generated text is never edited, a replacement whose "
+            "regenerated value does not fit the field's rule is refused; the 'only the last argument' slip is shown to violate "
+            "FieldIsGenerated) model-checked by TLC; every TLC-enumerated history of argument "
             "replacements / attempted edits is replayed with DerivationTree.replace on a real tree and compared with the spec "
             "state; real searches on specs whose generators log (symbol, arguments, return value): every generator-defined field "
             "of every operator result, population member and solution is judged by Trace_Gen.tla",
-            "bounded: histories of 3 steps (2.5% sample quick, all thorough) from 27 initial states; 22 / 132 searches over 11 "
-            "constraint sets; constant, random, one/two-argument and nested (deterministic inner) generators; F31, F32 known",
+            "bounded: histories of 3 steps (2.5% sample quick, all thorough) from 27 initial states; 38 / 180 searches over 11 + 4 "
+            "constraint sets (incl. same-symbol equalities across a generated field); constant, random, one/two-argument and "
+            "partial generators; generator-defined ARGUMENTS only as pinned witnesses (F31); F31, F32 known",
             "TLA+ model (TLC exhaustive) + TLC-enumerated histories replayed into real trees + TLC trace validation of logged generator calls"),
     "C17": ("exploration",
             "two fresh processes per configuration (same spec, settings, random seed incl. 0, PYTHONHASHSEED) record the event stream "
